@@ -234,7 +234,11 @@ static bool build(const P& p, Built& b, vh::Ctx& ctx) {
   for (int g = 0; g < 4; g++) {
     if (p.has(F_SET_DIRTY)) f.set_dirty_regs(RegGroup(g), p.dirty[g]); else f.add_dirty_regs(RegGroup(g), p.dirty[g]);
   }
-  if (p.has(F_ALL_DIRTY)) f.set_all_dirty();     // documented helper: every register of every group clobbered
+  if (p.has(F_ALL_DIRTY)) {                      // documented helper: every register of every group clobbered
+    f.set_all_dirty();
+    // domain: xmm16..31 can only be declared dirty by a function that enabled AVX-512 (same restriction as the generated masks)
+    if (p.arch != ARCH_A64 && !p.has(F_AVX512)) f.set_dirty_regs(RegGroup::kVec, f.dirty_regs(RegGroup::kVec) & 0xFFFFu);
+  }
   if (p.has(F_UPDATE_API)) {
     f.update_local_stack_size(p.local_size); f.update_call_stack_size(p.call_size);
     if (p.local_al) f.update_local_stack_alignment(p.local_al);
@@ -569,6 +573,9 @@ static void run_sim(const P& p, const Built& b, vh::Ctx& ctx) {
   Error e1 = bb->emit_prolog(f);
   BaseNode* split = bb->cursor();
   Error e2 = bb->emit_epilog(f);
+  // AArch64 prolog/epilog do not implement dynamic stack alignment: a documented refusal (kInvalidState from both)
+  // is accepted, silently emitting a frame that does not align SP is not (keys *:a64-da).
+  if (p.arch == ARCH_A64 && b.da && e1 == Error::kInvalidState && e2 == Error::kInvalidState) { ctx.cls("a64_dynamic_alignment_rejected"); return; }
   if (e1 != Error::kOk || e2 != Error::kOk) {
     ctx.fail_unless_known(std::string("emit-error:") + an, fmt("emit_prolog -> %u, emit_epilog -> %u :: %s :: %s", unsigned(e1), unsigned(e2), describe(p, b).c_str(), make_listing(p, b).c_str()));
     return;
@@ -1030,8 +1037,9 @@ void vh_run(const vh::Case& c, vh::Ctx& ctx) {
   // SSE moves cannot name xmm16..31: the frame must use (E)VEX moves whenever such a register is saved.
   if (p.arch != ARCH_A64 && !f.is_avx_enabled() && (f.saved_regs(RegGroup::kVec) >> 16) != 0) {
     ctx.cls("sse_save_of_high_xmm");
-    ctx.fail_unless_known("vec-save-sse-with-xmm16plus", "AVX-512 enabled without AVX and xmm16..31 to save: prolog/epilog use movaps/movups with xmm16+ (assembled as xmm0..15) :: " + describe(p, b) + " :: " + make_listing(p, b));
-    return;
+    // While the finding is listed these frames are skipped (the host run would execute moves of the wrong registers); once it is
+    // retired the reference machine judges the emitted instructions (legacy SSE move naming xmm16+ -> same key).
+    if (ctx.is_known("vec-save-sse-with-xmm16plus")) { ctx.known_excluded("vec-save-sse-with-xmm16plus"); return; }
   }
   bool nosim = ctx.opts && ctx.opts->geti("nosim", 0), nohost = ctx.opts && ctx.opts->geti("nohost", 0);   // oracle selection for sensitivity studies
   if (!nosim) { run_sim(p, b, ctx); ctx.cls("simulated"); }
